@@ -161,7 +161,19 @@ pub fn path_sets(tier: Tier) -> Vec<PathSet> {
         PathSet { name: "predicates x all-docs".into(), paths: mk(jgen::predicate_paths()), docs: docs.clone() },
         PathSet { name: "arithmetic x subset".into(), paths: mk(jgen::arithmetic_paths()), docs: sub.clone() },
     ];
+    // deeper and wider documents so that 3- and 4-step paths actually reach something
+    let deep: Arc<Vec<(RVal, Vec<u8>)>> = Arc::new(
+        (0..refmodel::gen::deep_count())
+            .step_by(if tier.thorough() { 13 } else { 97 })
+            .map(refmodel::gen::deep_nth)
+            .chain((0..refmodel::gen::wide_count()).step_by(if tier.thorough() { 53 } else { 397 }).map(refmodel::gen::wide_nth))
+            .map(|x| { let b = enc(&x); (x, b) })
+            .collect(),
+    );
+    v.push(PathSet { name: "plain<=3-steps x deep/wide docs".into(), paths: mk(jgen::plain_paths(3)), docs: deep.clone() });
+    v.push(PathSet { name: "2-steps-one-filter(reduced) x deep/wide docs".into(), paths: mk(jgen::filter_paths(2, &jgen::filters_reduced())), docs: deep.clone() });
     if tier.thorough() {
+        v.push(PathSet { name: "plain-4-steps x deep/wide docs".into(), paths: mk(jgen::plain_paths(4).into_iter().filter(|p| p.0.len() == 5).collect()), docs: deep.clone() });
         v.push(PathSet { name: "plain-4-steps x small-subset".into(), paths: mk(jgen::plain_paths(4).into_iter().filter(|p| p.0.len() == 5).collect()), docs: small });
     }
     v
